@@ -669,8 +669,11 @@ def _plan_sched(st, rc, tier):
     consumers = ["file_generator", "env_generator_params", "load_data", "dataset_val"]
     if name == "jssp" and K == 1:
         consumers.append("single_file")
+    # earlier requests served by the same file-backed generator (each reaches the end of the file list, so the
+    # next request starts from the first file again): a later read must still return every instance
+    pre = [rc.choice([K, K + 1, K + 2, 2 * K + 1]) for _ in range(rc.randint(1, 3))] if rc.random() < 0.4 else []
     return {"cfg": cfg, "instances": [E.enc_row(r) for r in rows], "consumer": rc.choice(consumers),
-            "listdir_shuffle": rc.random() < 0.7, "listdir_seed": rc.randrange(1 << 30),
+            "pre_reads": pre, "listdir_shuffle": rc.random() < 0.7, "listdir_seed": rc.randrange(1 << 30),
             "strategies": [rc.choice(D.STRATEGIES) for _ in range(K)]}
 
 
@@ -742,6 +745,9 @@ def _exec_sched(run, rd):
                 from rl4co.envs.scheduling.jssp.generator import JSSPFileGenerator as G
             with run.guard(scope, f"{G.__name__}(directory)", consumer=consumer):
                 g = G(where)
+                for s_ in plan.get("pre_reads", []):
+                    g(batch_size=[s_])
+                    run.probe("sched_pre_read")
                 td_l = g(batch_size=[K])
         elif consumer == "single_file":
             from rl4co.envs.scheduling.jssp.generator import JSSPFileGenerator as G
@@ -754,6 +760,9 @@ def _exec_sched(run, rd):
             cfg2["gen"] = {"file_path": where}
             with run.guard(scope, "Env(generator_params={'file_path': dir})", consumer=consumer):
                 env_r = E.make_env(cfg2)
+                for s_ in plan.get("pre_reads", []):
+                    env_r.generator(batch_size=[s_])
+                    run.probe("sched_pre_read")
                 td_l = env_r.generator(batch_size=[K])
         elif consumer == "load_data":
             with run.guard(scope, "env.load_data(directory)", consumer=consumer):
@@ -763,6 +772,9 @@ def _exec_sched(run, rd):
             cfg2["kw"].update(data_dir=rd.join("data"), val_file="inst")
             with run.guard(scope, "env.dataset(phase='val') from a directory", consumer=consumer):
                 env_r = E.make_env(cfg2)
+                for s_ in plan.get("pre_reads", []):
+                    env_r.dataset(s_, phase="val")
+                    run.probe("sched_pre_read")
                 d = env_r.dataset(K, phase="val")
                 parts = [_td_dict(b) for b in DataLoader(d, batch_size=K, collate_fn=d.collate_fn)]
                 td_l = TensorDict({k: torch.cat([p[k] for p in parts], 0) for k in parts[0]}, batch_size=[K])
